@@ -2,6 +2,7 @@ SPECIFICATION TSpec
 CONSTANTS
   Scheds <- SchedsTrace
   Blocking = {}
+  Panicking = {}
   MaxNow = 1000000
   MaxStep = 1
   MaxOps = 1000000
